@@ -139,6 +139,11 @@ NEGATIVE = [
                                        'Und kann so benutzt werden:\n\t"le <l> <e>"\nSchreibe (le (eine Liste, die aus 1, 2 besteht) "a") auf eine Zeile.\n'),
 ]
 
+# generic functions instantiated from another module than the one that declares them
+MODULE_PROGRAMS = [
+    ("operator-overloads-of-the-declaring-module", {"lib.ddp": 'Binde "Duden/Ausgabe" ein.\nWir nennen die öffentliche Kombination aus\n\tder öffentlichen Zahl x mit Standardwert 0,\neinen Vek, und erstellen sie so:\n\t"Vek <x>"\n\nDie öffentliche Funktion vekplus mit den Parametern a und b vom Typ Vek und Vek, gibt einen Vek zurück, macht:\n\tGib Vek ((x von a) plus (x von b)) zurück.\nUnd überlädt den "plus" Operator.\n\nDie öffentliche generische Funktion Summiere mit den Parametern a und b vom Typ T und T, gibt ein T zurück, macht:\n\tGib a plus b zurück.\nUnd kann so benutzt werden:\n\t"summiere <a> <b>"\n\nDie öffentliche Funktion SummiereVek mit den Parametern a und b vom Typ Vek und Vek, gibt einen Vek zurück, macht:\n\tGib a plus b zurück.\nUnd kann so benutzt werden:\n\t"summierevek <a> <b>"\n', "main.ddp": 'Binde "Duden/Ausgabe" ein.\nBinde Vek, Summiere und SummiereVek aus "lib" ein.\n\nDie Funktion vekmal mit den Parametern a und b vom Typ Vek und Vek, gibt einen Vek zurück, macht:\n\tGib Vek ((x von a) mal (x von b)) zurück.\nUnd überlädt den "plus" Operator.\n\nDer Vek v ist Vek 3.\nDer Vek w ist Vek 4.\nSchreibe (x von (summierevek v w)) auf eine Zeile.\nSchreibe (x von (summiere v w)) auf eine Zeile.\nSchreibe (x von (v plus w)) auf eine Zeile.\nSchreibe (summiere 3 4) auf eine Zeile.\n'}, "7\n7\n12\n7\n"),
+]
+
 
 def check(res, tier):
     sd = seed()
@@ -211,6 +216,13 @@ def check(res, tier):
         if r.cls != "compile-rejected":
             res.violation("kombi-negative:" + name, "ill-typed use of generics (%s) was not rejected with a diagnostic: %s" % (name, r.cls),
                           {"program": KOMBI + body, "expected": "rejected with a diagnostic", "implementation": r.as_dict()})
+    mouts = pipeline.farm(ddp, [(files, cfg, {}) for _, files, _ in MODULE_PROGRAMS])
+    for (name, files, want), r in zip(MODULE_PROGRAMS, mouts):
+        res.evaluations += 1
+        res.nontrivial("module:" + name)
+        if r.cls != "ok" or r.stdout != want:
+            res.violation("module:" + name, "generic function used from another module (%s): expected %r, got %s %r" % (name, want, r.cls, r.stdout[-200:]),
+                          {"files": files, "program": files["main.ddp"], "expected_stdout": want, "implementation": r.as_dict()})
     evalcorr.report_broken(res, broken)
     res.extra.update({"unify_requests": len(reqs), "unify_outcomes": dict(st), "generic_programs": len(progs),
                       "generic_two_module_programs": len(splitp), "outcomes_programs": dict(st2),
